@@ -263,6 +263,24 @@ pub fn run(cfg: &Cfg, out: &mut Out) {
             }
         }
     }
+    // zero-padded numbers (the digit run may be longer than the type's widest value)
+    let mut padded: Vec<String> = Vec::new();
+    for k in 1..=7 {
+        for tail in ["7", "255", "256", "65535", "12:0030 rest"] {
+            padded.push(format!("{}{}", "0".repeat(k), tail));
+            padded.push(format!("-{}{}", "0".repeat(k), tail));
+            padded.push(format!("{}{};x", "0".repeat(k), tail));
+        }
+        padded.push("0".repeat(k));
+    }
+    padded.push(format!("{}1", "0".repeat(25)));
+    padded.push(format!("{}1", "0".repeat(45)));
+    for s in &padded {
+        for a in PARSE_OPS {
+            emit(out, s, 0, &[a]);
+            emit(out, s, 7, &[a, StripPrefix(":"), a]);
+        }
+    }
     for s in ["true", "false", "truefalse", "tru", " true", "255", "256", "-128", "-129", "65535x", "18446744073709551616", "007 ", "-0-"] {
         for a in PARSE_OPS {
             for b in PARSE_OPS {
